@@ -5,4 +5,18 @@ package main
 var rules = []Rule{
 	{ID: "E1.wrap", Doc: "exported wrappers are exactly the documented delegation (canonical body comparison with callees, constants and parameters resolved through go/types)",
 		Props: []string{"C01", "C02", "C03", "C05", "C06", "C07", "C08", "C09", "C10", "C15", "C18", "C19", "C20"}, Floor: 27, Run: ruleWrap},
+	{ID: "E2.powers", Doc: "power-of-ten tables, the 10^57 reciprocal numerator and the 10^38 multiplier equal values computed by the checker",
+		Props: []string{"C16", "C17", "C18", "C04", "C09"}, Floor: 102, Run: ruleTabPowers},
+	{ID: "E2.text", Doc: "digitPairs[i] is the two-digit numeral of i and the special-value texts are NaN/+Inf/-Inf (and padded forms)",
+		Props: []string{"C06", "C07", "C13"}, Floor: 107, Run: ruleTabDigitPairs},
+	{ID: "E2.divK", Doc: "every uintN.divK uses one power-of-ten constant for threshold and all Div64 steps, and its Div64 chain is symbolically verified to be schoolbook long division",
+		Props: []string{"C01", "C02", "C03", "C04", "C05", "C06", "C08", "C09", "C14", "C16", "C17"}, Floor: 32, Run: ruleTabDivK},
+	{ID: "E2.p10", Doc: "the p10 switch tables of Pow and powexp10 map case k to 10^k",
+		Props: []string{"C18", "C16"}, Floor: 15, Run: ruleTabP10},
+	{ID: "E2.grid", Doc: "multi-word multiplications contain each partial product (n[i], o[j]) exactly once",
+		Props: []string{"C02", "C09", "C16", "C17", "C18"}, Floor: 7, Run: ruleTabGrids},
+	{ID: "E2.ln", Doc: "ln table (89 entries), ln10, ln2, 1/ln10, 1/ln2 are within one unit of the true value at their scale (computed by the checker to 400 bits); table length and indexing agree",
+		Props: []string{"C16", "C18"}, Floor: 96, Run: ruleTabLn},
+	{ID: "E2.payload", Doc: "NaN payload registry: packing, unpacking, operation names, arity and construction sites agree",
+		Props: []string{"C15"}, Floor: 60, Run: ruleTabPayload},
 }
